@@ -63,7 +63,7 @@ mod verif_c19_writer {
     fn any_payload_in(buf: &'static [u8; 8]) -> (Bytes, *const u8, usize) {
         let n: usize = kani::any();
         kani::assume(n <= DMAX);
-        let b = Bytes::from_static(unsafe { core::slice::from_raw_parts(buf.as_ptr(), n) });
+        let b = Bytes::from_static(unsafe { core::mem::transmute::<(*const u8, usize), &'static [u8]>((buf.as_ptr(), n)) });
         let p = b.as_ptr();
         (b, p, n)
     }
